@@ -1,7 +1,7 @@
 #!/bin/sh
 # usage: tools/seed_verify.sh <dir with patch.diff demo.py> -- confirms a seeded change in a fresh scratch worktree:
 # patch applies to /repo HEAD; baseline 696/696 with it; demo exits 1 with it and 0 on /repo
-D="$1"
+D="$(readlink -f "$1")"
 WT=/tmp/vfseed.$$
 git -C /repo worktree add -q --detach "$WT" HEAD || exit 2
 ( cd "$WT" && git apply "$D/patch.diff" ) || { git -C /repo worktree remove --force "$WT"; echo "patch does not apply"; exit 2; }
